@@ -302,7 +302,7 @@ def check_doc(ast, opts_list, res, case_base):
         elif kinds_adjacent(ast):
             res.nontriv((src, repr(sorted(opts.items()))))
     for it in ast:
-        res.label('top:' + it[0])
+        res.label('top:' + it[0], {'src': src})
 
 
 def check_metamorphic(a_doc, b_doc, opts, res):
